@@ -7,6 +7,7 @@ import FstVerif.Model.Merge
 import FstVerif.Model.Sched
 import FstVerif.Model.Frontends
 import FstVerif.Model.Glue
+import FstVerif.Model.Lines
 import FstVerif.Spec.Format
 import FstVerif.Spec.Encode
 import FstVerif.Spec.Utf8
@@ -467,7 +468,11 @@ def inputRows (mode : String) (rows : List (Key × Nat)) (opt : String) : List (
     match opts.filterMap (fun o => match o.splitOn ":" with | ["rep", k, n] => some (k.toNat!, n.toNat!) | _ => none) with
     | (k, n) :: _ => [(rows.take k, true), (rows.drop k, true)] ++ List.replicate n (rows.take k, true)
     | [] => [(rows, lastTerminated)]
-  fileRows (mode == "set") files
+  if mode == "set" then
+    -- `fst set`: from the BYTES of each file (what the harness writes) through the line reader
+    -- (Model/Lines.lean `byteLines`; equal to `fileRows true files` by `Lines.concatFilesLines_render`)
+    (concatFilesLines (files.map fun (rows, t) => renderLines (rows.map (·.1)) t)).map (·, 0)
+  else fileRows false files
 
 def cmdMerge (mode : String) (batch fd threads seed : Nat) (rows : String) (opt : String := "") : String :=
   let m := match mode with
